@@ -3,7 +3,8 @@
 From Coq Require Import ZArith QArith List Bool Lia Arith.
 From ONL Require Import Elem.Packet Elem.StoreQ Elem.Wire Elem.Port Elem.Bucket Elem.SchedBase
   Elem.WFQServer Elem.WFQ Elem.VC Elem.DRR
-  Elem.Iface Elem.Compose Elem.ComposeHands Elem.AdaptWire Elem.AdaptPort Elem.AdaptBucket Elem.AdaptSched Elem.AdaptSrv Elem.AdaptDRR.
+  Elem.Iface Elem.Compose Elem.ComposeHands Elem.AdaptWire Elem.AdaptPort Elem.AdaptBucket Elem.AdaptSched Elem.AdaptSrv Elem.AdaptDRR
+  Elem.TwoRate Elem.AdaptTwoRate Elem.AdaptRed.
 Import ListNotations.
 Local Close Scope Q_scope.
 
@@ -84,4 +85,31 @@ Proof.
   apply atomic_tagged; [cbn; lia| |].
   - intros p s s' o H. cbn [put drr_elem] in H. eapply dlift_no_hand; eauto.
   - intros l s s' o H. cbn [step drr_elem] in H. destruct (drr_internal l); [|discriminate]. eapply dlift_no_hand; eauto.
+Qed.
+
+Lemma rlift_no_hand r s o : rlift r = Some (s, o) -> Forall no_hand o.
+Proof.
+  unfold rlift. destruct r as [[w' o']|]; [|discriminate]. intros H. injection H as _ <-.
+  apply no_hand_flat. intros []; cbn; repeat constructor.
+Qed.
+Theorem trtb_elem_tagged c t0 : tagged (trtb_elem c t0).
+Proof.
+  apply atomic_tagged; [cbn; lia| |].
+  - intros p s s' o H. cbn [put trtb_elem] in H. eapply rlift_no_hand; eauto.
+  - intros l s s' o H. cbn [step trtb_elem] in H. destruct (tr_internal l); [|discriminate]. eapply rlift_no_hand; eauto.
+Qed.
+
+Lemma with_tape_no_hand tp r s o : with_tape tp (plift r) = Some (s, o) -> Forall no_hand o.
+Proof.
+  unfold with_tape. destruct (plift r) as [[w' o']|] eqn:E; [|discriminate]. intros H. injection H as _ <-.
+  eapply plift_no_hand; eauto.
+Qed.
+Theorem oport_elem_tagged c t0 : tagged (oport_elem c t0).
+Proof.
+  apply atomic_tagged; [cbn; lia| |].
+  - intros p s s' o H. cbn [put oport_elem] in H. destruct (o_put_act c (fst s) (snd s) p) as [ma tp].
+    eapply with_tape_no_hand; eauto.
+  - intros [a|u] s s' o H; cbn [step oport_elem] in H.
+    + destruct (port_internal a); [|discriminate]. eapply with_tape_no_hand; eauto.
+    + injection H as _ <-. constructor.
 Qed.
